@@ -28,6 +28,8 @@ inductive DfError where
   | tooShort
   | tooShortHeaderVersion
   | tooShortHeader
+  /-- `raw::Error::Callback`: a callback returned `Err(CallbackError)` -/
+  | callback
   deriving DecidableEq, Repr, Inhabited
 
 def DfError.name : DfError → String
@@ -40,6 +42,7 @@ def DfError.name : DfError → String
   | .tooShort => "TooShort"
   | .tooShortHeaderVersion => "TooShortHeaderVersion"
   | .tooShortHeader => "TooShortHeader"
+  | .callback => "Callback"
 
 inductive Outcome (α : Type) where
   | ok (a : α)
@@ -422,6 +425,72 @@ def Reader.new (bytes : List UInt8) : Outcome Reader :=
                       | .err e => .err e
                       | .panic s => .panic s
 
+/-! ## Callbacks that fail -/
+
+/-- `Reader::new` with callbacks that may return `Err(CallbackError)`: `fails k` says whether the
+`k`-th callback call fails.  Calls in order: `read` for the header (0), the item types (1), the
+item offsets (2), the data offsets (3), the uncompressed sizes (4, version 4 only), the items,
+then `set_seek_base`, then `ensure_filesize`.  Everything else is `Reader.new`. -/
+def Reader.newCb (bytes : List UInt8) (fails : Nat → Bool) : Outcome Reader :=
+  if fails 0 then .err .callback
+  else
+  match Header.read bytes with
+  | .panic s => .panic s
+  | .err e => .err e
+  | .ok h =>
+    match h.checkSizeAndSwaplen with
+    | .panic s => .panic s
+    | .err e => .err e
+    | .ok hc =>
+      if h.version ≠ 3 ∧ h.version ≠ 4 then .panic "new: unreachable version"
+      else
+        let version : Version :=
+          if h.version = 3 then .v3 else if hc.crude then .v4crude else .v4
+        let rest := bytes.drop headerSize
+        if fails 1 then .err .callback
+        else
+        match readExact (12 * asUsize h.numItemTypes) rest with
+        | none => .err .tooShort
+        | some (tb, rest) =>
+          if fails 2 then .err .callback
+          else
+          match readExact (4 * asUsize h.numItems) rest with
+          | none => .err .tooShort
+          | some (iob, rest) =>
+            if fails 3 then .err .callback
+            else
+            match readExact (4 * asUsize h.numData) rest with
+            | none => .err .tooShort
+            | some (dob, rest) =>
+              if version.hasCompressedData && fails 4 then .err .callback
+              else
+              match readUds version.hasCompressedData (4 * asUsize h.numData) rest with
+              | none => .err .tooShort
+              | some (udb, rest) =>
+                let base := if version.hasCompressedData then 5 else 4
+                if asUsize h.sizeItems % 4 ≠ 0 then
+                  .panic "new: relative_size_of_mult(size_items) alignment assertion"
+                else if fails base then .err .callback
+                else
+                  match readExact (4 * (asUsize h.sizeItems / 4)) rest with
+                  | none => .err .tooShort
+                  | some (ib, rest) =>
+                    if fails (base + 1) then .err .callback
+                    else if fails (base + 2) then .err .callback
+                    else if bytes.length < hc.expectedSize.toNat then .err .tooShort
+                    else
+                      let r : Reader :=
+                        { version := version, numItemTypes := h.numItemTypes, numItems := h.numItems,
+                          numData := h.numData, sizeItems := h.sizeItems, sizeData := h.sizeData,
+                          itemTypes := typesOfWords (wordsOfBytes tb),
+                          itemOffsets := wordsOfBytes iob, dataOffsets := wordsOfBytes dob,
+                          uncompSizes := udb.map wordsOfBytes, itemsRaw := wordsOfBytes ib,
+                          dataRegion := rest }
+                      match r.check with
+                      | .ok () => .ok r
+                      | .err e => .err e
+                      | .panic s => .panic s
+
 /-! ## `datafile/src/file.rs`: the file-backed reader -/
 
 /-- `file::Reader::new_impl(file, check_initial_offset)` with the file positioned at byte `start`
@@ -559,6 +628,68 @@ def Reader.readData (r : Reader) (inflate : Nat → List UInt8 → Option (List 
               else if out.length = dataLen then .ok out
               else .err .compressionWrongSize
         | none => .ok raw
+
+/-- `read_data(index)` with callbacks that may fail: `failSeek` = `seek_read` returns
+`Err(CallbackError)`, `failAlloc` = `alloc_data_buffer` does.  `&self` is not modified either way. -/
+def Reader.readDataCb (r : Reader) (inflate : Nat → List UInt8 → Option (List UInt8)) (index : Nat)
+    (failSeek failAlloc : Bool) : Outcome (List UInt8) :=
+  match r.dataSizeFile index with
+  | .panic s => .panic s
+  | .err e => .err e
+  | .ok rawLen =>
+    match r.dataOffsets[index]? with
+    | none => .panic "read_data: data_offsets[index]"
+    | some off =>
+      if failSeek then .err .callback
+      else
+        let start := (off % 4294967296).toNat
+        let raw := (r.dataRegion.drop start).take rawLen
+        if raw.length ≠ rawLen then .err .tooShort
+        else
+          match r.uncompSizes with
+          | some uds =>
+            match uds[index]? with
+            | none => .panic "read_data: uncomp_data_sizes[index]"
+            | some u =>
+              if failAlloc then .err .callback
+              else
+                let dataLen := asUsize u
+                match inflate dataLen raw with
+                | none => .err .compressionError
+                | some out =>
+                  if out.length > dataLen then .panic "zlib wrote past the destination buffer"
+                  else if out.length = dataLen then .ok out
+                  else .err .compressionWrongSize
+          | none => if failAlloc then .err .callback else .ok raw
+
+/-- the first outcome that is not `ok` (the `?` / panic propagation of a loop) -/
+def firstFailure : List (Outcome Unit) → Outcome Unit
+  | [] => .ok ()
+  | .ok () :: rest => firstFailure rest
+  | .err e :: _ => .err e
+  | .panic s :: _ => .panic s
+
+def Outcome.void {α : Type} : Outcome α → Outcome Unit
+  | .ok _ => .ok ()
+  | .err e => .err e
+  | .panic s => .panic s
+
+/-- `Reader::debug_dump` with debug logging enabled: `item_type(i)` for every type index,
+`item(k)` for every index of `item_type_indices(type)` (the byte arithmetic of `i32_to_bytes`
+stays within `i32`: `((x >> 24) & 0xff) - 0x80 ∈ [-128, 127]`), then `read_data(i)?` for every
+data index. -/
+def Reader.debugDump (r : Reader) (inflate : Nat → List UInt8 → Option (List UInt8)) : Outcome Unit :=
+  firstFailure
+    (((List.range r.numItemTypes.toNat).flatMap fun i =>
+        match r.itemType i with
+        | .ok t =>
+          match r.itemTypeIndices t with
+          | .ok (a, b) => ((List.range (b - a)).map fun j => (r.item (a + j)).void)
+          | .err e => [.err e]
+          | .panic s => [.panic s]
+        | .err e => [.err e]
+        | .panic s => [.panic s])
+      ++ (List.range r.numData.toNat).map fun i => (r.readData inflate i).void)
 
 /-! ## Writer (independent of the reader): versions 3 and 4 -/
 
